@@ -270,6 +270,16 @@ func genLookupName(t *rapid.T, hdr bool) B {
 		n[0] = (m[0] & 0x0f) | (rapid.Byte().Draw(t, "hi") & 0xf0)
 		return n
 	case 4:
+		if rapid.Bool().Draw(t, "padded") {
+			// a table name followed (or preceded) by 4k bytes: same first byte, same length mod 4
+			m := rapid.SampledFrom(table).Draw(t, "member")
+			k := 4 * rapid.IntRange(1, 3).Draw(t, "k")
+			pad := genFrom(t, "pad", "\x00\x00 \t-AaZz09\xff", k, k)
+			if rapid.IntRange(0, 3).Draw(t, "front") == 0 {
+				return append(append(B{}, pad...), m...)
+			}
+			return append(B(m), pad...)
+		}
 		return rapid.SliceOfN(rapid.Byte(), 0, 24).Draw(t, "raw")
 	default:
 		return []byte(rapid.StringMatching(`[A-Za-z\-]{0,20}`).Draw(t, "tok"))
@@ -427,4 +437,30 @@ func mthTableNames() []string {
 		o = append(o, e.n)
 	}
 	return o
+}
+
+// enumPadded emits every table name followed by every 4-byte suffix over a small alphabet
+// (same hash bucket: same first byte, same length mod 4), and by 8 equal bytes.
+func enumPadded(names []string, emit func(CaseName) bool) {
+	alpha := []byte{0x00, ' ', '-', 'A', 'a', 'e', 'E', 0xff}
+	for _, n := range names {
+		for _, base := range []string{n, strings.ToUpper(n)} {
+			for v := 0; v < len(alpha)*len(alpha)*len(alpha)*len(alpha); v++ {
+				x := v
+				suf := make([]byte, 4)
+				for i := range suf {
+					suf[i] = alpha[x%len(alpha)]
+					x /= len(alpha)
+				}
+				if !emit(CaseName{Name: append(B(base), suf...)}) {
+					return
+				}
+			}
+			for _, ch := range alpha {
+				if !emit(CaseName{Name: append(B(base), bytes.Repeat([]byte{ch}, 8)...)}) {
+					return
+				}
+			}
+		}
+	}
 }
